@@ -72,6 +72,7 @@ def run(chk):
     rule_out(chk)
     rule_through(chk)
     rule_total(chk)
+    rule_swizzle_value_type(chk)
 
 
 def rule_assign(chk):
@@ -364,3 +365,42 @@ def rule_total(chk):
                "explicit typing rule for all %d %s variants" % (len(vs), self_ty) if not missing and not catch else
                "%s::%s has no explicit arm for %s%s: a node without a typing rule can enter the IR" % (self_ty, fn_name, missing, " (catch-all present)" if catch else ""),
                where(fn, m), sample={"variants": len(vs), "covered": len(covered)})
+
+
+def rule_swizzle_value_type(chk):
+    """A swizzle that names a component twice is not assignable: get_swizzle_value_type / get_matrix_swizzle_value_type
+    read as finite maps over all slot sequences of length 1..4 (340 / 4 368 sequences): Rvalue iff a slot repeats."""
+    import itertools
+    f = chk.facts
+    ip = I.Interp(f)
+    for name, adt, slots in (("get_swizzle_value_type", "SwizzleSlot", None), ("get_matrix_swizzle_value_type", "MatrixSwizzleSlot", None)):
+        fn = chk.anchor("C03.anchor/" + name, f.fn(name, "rssl_ir"), name)
+        if not fn:
+            continue
+        if adt == "SwizzleSlot":
+            vs = f.variants("SwizzleSlot", "rssl_ir") or []
+            dom = [I.Enum("SwizzleSlot", v) for v in vs]
+        else:
+            ci = f.variants("ComponentIndex", "rssl_ir") or []
+            dom = [I.Enum("MatrixSwizzleSlot", None, {"0": I.Enum("ComponentIndex", a), "1": I.Enum("ComponentIndex", b)}) for a in ci[:3] for b in ci[:2]]
+        bad = []
+        n = 0
+        for ln in (1, 2, 3, 4):
+            for seq in itertools.product(dom, repeat=ln):
+                for vt in ("Lvalue", "Rvalue"):
+                    n += 1
+                    try:
+                        r = ip.apply(fn, [list(seq), I.Enum("ValueType", vt)])
+                        got = r.variant if isinstance(r, I.Enum) else str(r)
+                    except I.Unknown as e:
+                        got = "unreadable (%s)" % e
+                    dup = len(set(map(repr, seq))) < len(seq)
+                    want = "Rvalue" if dup else vt
+                    if got != want and len(bad) < 3:
+                        bad.append((".".join(repr(s).split("::")[-1] for s in seq), vt, got, want))
+                    elif got != want:
+                        bad.append(None)
+        chk.ob("C03.swizzle/%s" % name, not bad,
+               "%d slot sequences: a repeated component makes the swizzle an rvalue, otherwise the value category is kept" % n if not bad else
+               "%s: %d of %d slot sequences get the wrong value category, e.g. swizzle %s of an %s is %s (must be %s): a repeated component becomes assignable"
+               % ((name, len(bad), n) + tuple(bad[0])), where(fn), sample={"fn": name, "sequences": n, "wrong": len(bad)})
